@@ -1161,6 +1161,7 @@ def slotNT : Slot → Nat
   | .dictCompKey => 1                   -- DictEntry
   | .dictCompValue => 1
   | .compTarget => 6                    -- ExpressionList: Expression | StarExpr
+  | .compTargetElt => 6                 -- ExpressionList: Expression | StarExpr
   | .compIter => 2                      -- "in" OrTest
   | .compIf => 2                        -- ComprehensionIf: "if" OrTest
   | .yieldValue => 1                    -- "yield" TestList
